@@ -213,6 +213,8 @@ func C06(ctx *core.Ctx, r *core.Report) {
 	c06TokenTables(ctx, r, g, kw)
 	c06ValueDelivery(ctx, r, g)
 	c06CanonicalDecode(ctx, r, g)
+	c06DecodeOnce(ctx, r, g)
+	c06BuilderErrorChecked(ctx, r, g)
 	c06StackBalance(ctx, r, g)
 	c06KeywordLiterals(ctx, r, g)
 	c06NoSilentDiscard(ctx, r)
@@ -1124,3 +1126,190 @@ func c06BuilderFresh(ctx *core.Ctx, r *core.Report) {
 }
 
 var c06FreshTriage = map[string]string{}
+
+// D8: text is decoded once. tokenString/trimQuotes strip one pair of quotes;
+// they are applied to raw tokens only, never to the value of a non-terminal
+// whose own action has already decoded it (a description that starts and ends
+// with a quote character would lose them).
+func c06DecodeOnce(ctx *core.Ctx, r *core.Report, g *yacc.Grammar) {
+	// non-terminals whose value is already decoded text: some alternative's action applies a decoder
+	decoders := map[string]bool{"tokenString": true, "trimQuotes": true}
+	decoded := map[string]bool{}
+	for _, rule := range g.Rules {
+		for _, alt := range rule.Alts {
+			if alt.Action == nil || alt.Action.Body == nil {
+				continue
+			}
+			ast.Inspect(alt.Action.Body, func(n ast.Node) bool {
+				if as, ok := n.(*ast.AssignStmt); ok && len(as.Lhs) == 1 {
+					if id, ok := as.Lhs[0].(*ast.Ident); ok && id.Name == "yyVAL_" {
+						ast.Inspect(as.Rhs[0], func(m ast.Node) bool {
+							if c, ok := m.(*ast.CallExpr); ok {
+								if f, ok := c.Fun.(*ast.Ident); ok && decoders[f.Name] {
+									decoded[rule.Name] = true
+								}
+							}
+							return true
+						})
+					}
+				}
+				return true
+			})
+		}
+	}
+	n := 0
+	for _, rule := range g.Rules {
+		for _, alt := range rule.Alts {
+			acts := []*yacc.Action{alt.Action}
+			for _, s := range alt.Syms {
+				acts = append(acts, s.Action)
+			}
+			var names []string
+			for _, s := range alt.Syms {
+				names = append(names, s.Name)
+			}
+			for _, a := range acts {
+				if a == nil || a.Body == nil {
+					continue
+				}
+				ast.Inspect(a.Body, func(nn ast.Node) bool {
+					c, ok := nn.(*ast.CallExpr)
+					if !ok || len(c.Args) != 1 {
+						return true
+					}
+					f, ok := c.Fun.(*ast.Ident)
+					if !ok || !decoders[f.Name] {
+						return true
+					}
+					id, ok := c.Args[0].(*ast.Ident)
+					if !ok || !strings.HasPrefix(id.Name, "yyD_") {
+						return true
+					}
+					k, err := strconv.Atoi(strings.TrimPrefix(id.Name, "yyD_"))
+					if err != nil || k < 1 || k > len(alt.Syms) {
+						return true
+					}
+					sym := alt.Syms[k-1].Name
+					n++
+					r.Ob("decode-once", fmt.Sprintf("%s/%s/%s($%d)", rule.Name, strings.Join(names, " "), f.Name, k),
+						fmt.Sprintf("parser/parser.y:%d", a.Line), !decoded[sym],
+						fmt.Sprintf("%s is applied to $%d, the value of %s, which that non-terminal's own action has already decoded: text that itself begins and ends with a quote character loses it", f.Name, k, sym))
+					return true
+				})
+			}
+		}
+	}
+	r.Count("decoded_nonterminals", len(decoded))
+	r.Floor("decode-once", n, 6)
+}
+
+// D9: a builder call that pushes what it built on the parser's stack is
+// followed, in the same action, by the check of Builder.LastErr that abandons
+// the parse (chkErr … goto ret1). Builder methods return nil on failure; a nil
+// on the stack is what the actions of the nested statements then work on.
+func c06BuilderErrorChecked(ctx *core.Ctx, r *core.Report, g *yacc.Grammar) {
+	n := 0
+	for _, rule := range g.Rules {
+		for _, alt := range rule.Alts {
+			acts := []*yacc.Action{alt.Action}
+			for _, s := range alt.Syms {
+				acts = append(acts, s.Action)
+			}
+			var names []string
+			for _, s := range alt.Syms {
+				names = append(names, s.Name)
+			}
+			for _, a := range acts {
+				if a == nil || a.Body == nil {
+					continue
+				}
+				// stack.push(l.builder.X(...)) or x := l.builder.X(...); …push(x)
+				pushesBuilt := false
+				var method string
+				var at token.Pos
+				ast.Inspect(a.Body, func(nn ast.Node) bool {
+					c, ok := nn.(*ast.CallExpr)
+					if !ok {
+						return true
+					}
+					sel, ok := c.Fun.(*ast.SelectorExpr)
+					if !ok || sel.Sel.Name != "push" {
+						return true
+					}
+					for _, arg := range c.Args {
+						ast.Inspect(arg, func(m ast.Node) bool {
+							if ce, ok := m.(*ast.CallExpr); ok {
+								if s2, ok := ce.Fun.(*ast.SelectorExpr); ok {
+									if inner, ok := s2.X.(*ast.SelectorExpr); ok && inner.Sel.Name == "builder" {
+										pushesBuilt, method, at = true, s2.Sel.Name, c.End()
+									}
+								}
+							}
+							return true
+						})
+					}
+					return true
+				})
+				if !pushesBuilt || !builderFallible(ctx, method) {
+					continue
+				}
+				n++
+				checked := false
+				ast.Inspect(a.Body, func(nn ast.Node) bool {
+					ifs, ok := nn.(*ast.IfStmt)
+					if !ok || ifs.Pos() < at {
+						return true
+					}
+					c, ok := ifs.Cond.(*ast.CallExpr)
+					if !ok {
+						return true
+					}
+					if id, ok := c.Fun.(*ast.Ident); ok && (id.Name == "chkErr" || id.Name == "chkErr2") {
+						// the body leaves the parse
+						for _, st := range ifs.Body.List {
+							if br, ok := st.(*ast.BranchStmt); ok && br.Tok == token.GOTO {
+								checked = true
+							}
+						}
+					}
+					return true
+				})
+				r.Ob("builder-error-checked", fmt.Sprintf("%s/%s/builder.%s", rule.Name, strings.Join(names, " "), method),
+					fmt.Sprintf("parser/parser.y:%d", a.Line), checked,
+					fmt.Sprintf("the result of builder.%s is pushed on the stack and the action does not stop the parse when the builder failed: the builder returns nil then, and the nested statements are applied to a nil parent", method))
+			}
+		}
+	}
+	r.Floor("builder-error-checked", n, 30)
+}
+
+// builderFallible: the meta.Builder method records an error (calls setErr,
+// directly or through another Builder method).
+func builderFallible(ctx *core.Ctx, method string) bool {
+	f := ctx.Method("meta", "Builder", method)
+	if f == nil {
+		return true // unknown: treat as fallible
+	}
+	seen := map[*ssa.Function]bool{}
+	var walk func(g *ssa.Function, depth int) bool
+	walk = func(g *ssa.Function, depth int) bool {
+		if seen[g] || depth > 3 {
+			return false
+		}
+		seen[g] = true
+		for _, c := range core.CallSites(g) {
+			cal := core.StaticCallee(c)
+			if cal == nil {
+				continue
+			}
+			if core.FnName(cal) == "meta.Builder.setErr" {
+				return true
+			}
+			if cal.Signature.Recv() != nil && core.TypeName(core.Deref(cal.Signature.Recv().Type())) == "meta.Builder" && walk(cal, depth+1) {
+				return true
+			}
+		}
+		return false
+	}
+	return walk(f, 0)
+}
